@@ -156,3 +156,226 @@ fn(VA, 'scatter_assign', trait='Array', self_ty='VecArray', status='P', props=['
            ('after:self[*i] = x.clone()',
             'assert forall|j: int| 0 <= j < self@.len() implies #[trigger] last_write(ixs@, j, it.index@ + 1) == (if ixs@[it.index@] == j { it.index@ as int } else { last_write(ixs@, j, it.index@ as int) }) by {}')])
 endgroup()
+
+# ---------------------------------------------------------------------------------------------
+# slice plumbing: get_range / set_range / from_slice go through RangeBounds / Index<Range> /
+# clone_from_slice, which Verus does not take.  T6 monomorphizes `get_range(<range literal>)`
+# into the four forms below; their contracts are assumed here, checked against the real
+# `get_range` by the bounded checker (status B), and `to_range` itself is proved by Kani (K).
+# ---------------------------------------------------------------------------------------------
+raw(r'''
+impl<T: Clone> VecArray<T> {
+    #[verifier::external_body]
+    pub fn get_range_full(&self) -> (r: &[T])
+        ensures r@ == self@, /*@C:C07.get_range-full@*/
+    { unimplemented!() }
+    #[verifier::external_body]
+    pub fn get_range_from(&self, a: usize) -> (r: &[T])
+        requires a <= self@.len(),
+        ensures r@ == self@.subrange(a as int, self@.len() as int), /*@C:C07.get_range-from@*/
+    { unimplemented!() }
+    #[verifier::external_body]
+    pub fn get_range_to(&self, b: usize) -> (r: &[T])
+        requires b <= self@.len(),
+        ensures r@ == self@.subrange(0, b as int), /*@C:C07.get_range-to@*/
+    { unimplemented!() }
+    #[verifier::external_body]
+    pub fn get_range_range(&self, a: usize, b: usize) -> (r: &[T])
+        requires a <= b <= self@.len(),
+        ensures r@ == self@.subrange(a as int, b as int), /*@C:C07.get_range-range@*/
+    { unimplemented!() }
+}
+''', tag='B:get_range')
+
+group('impl<T: Clone> VecArray<T>')
+fn(VA, 'from_slice', trait='Array', self_ty='VecArray', status='B', props=['C07'],
+   ensures=[('C07.from_slice-len', 'r@.len() == slice@.len()'),
+            ('C07.from_slice', 'lawful_clone::<T>() ==> r@ == slice@')], mirror='chk_from_slice')
+endgroup()
+
+# ---------------------------------------------------------------------------------------------
+# element-wise arithmetic (operator impls of vec_array.rs, generic in T there, used at usize)
+# ---------------------------------------------------------------------------------------------
+opimpl(VA, 'Add', 'usize', 'add_scalar', 'n', 'usize', "&'b VecArray<usize>", 'VecArray<usize>',
+       req='forall|i: int| 0 <= i < rhs@.len() ==> n + rhs@[i] <= usize::MAX',
+       ens=['r@.len() == rhs@.len()', 'forall|i: int| 0 <= i < rhs@.len() ==> r@[i] == n + rhs@[i]'],
+       labels=['C07.add_scalar-len', 'C07.add_scalar'], impl_generics="<'b>", props=['C07'],
+       closures={1: {'header': '|x: &usize| -> (y: usize)', 'spec': 'requires *x + n <= usize::MAX, ensures y == *x + n,'}})
+
+opimpl(VA, 'Add', 'VecArray', 'array_add', 'a', 'VecArray<usize>', 'VecArray<usize>', 'VecArray<usize>',
+       req=['a@.len() == rhs@.len()', 'forall|i: int| 0 <= i < a@.len() ==> a@[i] + rhs@[i] <= usize::MAX'],
+       ens=['r@.len() == a@.len()', 'forall|i: int| 0 <= i < a@.len() ==> r@[i] == a@[i] + rhs@[i]'],
+       labels=['C07.add-len', 'C07.add'], props=['C07'], rules={'subst': {'T': 'usize'}},
+       closures={1: {'header': '|xy: (&usize, &usize)| -> (z: usize)', 'spec': 'requires *xy.0 + *xy.1 <= usize::MAX, ensures z == *xy.0 + *xy.1,',
+                     'destructure': 'xy'}})
+
+opimpl(VA, 'Sub', 'VecArray', 'array_sub', 'a', 'VecArray<usize>', 'VecArray<usize>', 'VecArray<usize>',
+       req=['a@.len() == rhs@.len()', 'forall|i: int| 0 <= i < a@.len() ==> a@[i] >= rhs@[i]'],
+       ens=['r@.len() == a@.len()', 'forall|i: int| 0 <= i < a@.len() ==> r@[i] == a@[i] - rhs@[i]'],
+       labels=['C07.sub-len', 'C07.sub'], props=['C07'], rules={'subst': {'T': 'usize'}},
+       closures={1: {'header': '|xy: (&usize, &usize)| -> (z: usize)', 'spec': 'requires *xy.0 >= *xy.1, ensures z == *xy.0 - *xy.1,',
+                     'destructure': 'xy'}})
+
+# ---------------------------------------------------------------------------------------------
+# OrdArray / NaturalArray for VecArray<usize>
+# ---------------------------------------------------------------------------------------------
+raw(r'''
+/// p is a permutation of 0..n  (as a finite function: in range and injective)
+pub open spec fn is_perm(p: Seq<usize>, n: int) -> bool {
+    &&& p.len() == n
+    &&& forall|i: int| 0 <= i < n ==> (#[trigger] p[i]) < n
+    &&& forall|i: int, j: int| 0 <= i < n && 0 <= j < n && i != j ==> p[i] != p[j]
+}
+
+/// p is a permutation that sorts `key` (ties in any order: the documented argsort contract)
+pub open spec fn sorts(p: Seq<usize>, key: Seq<usize>) -> bool {
+    &&& is_perm(p, key.len() as int)
+    &&& forall|i: int, j: int| 0 <= i < j < key.len() ==> key[p[i] as int] <= key[p[j] as int]
+}
+
+/// ties keep their original order (an accident of the Vec backend: `sort_by_key` is stable)
+pub open spec fn stable(p: Seq<usize>, key: Seq<usize>) -> bool {
+    forall|i: int, j: int| 0 <= i < j < key.len() && key[p[i] as int] == key[p[j] as int] ==> p[i] < p[j]
+}
+
+/// total amount subtracted from cell j by the first n (index, amount) pairs
+pub open spec fn sub_total(ixs: Seq<usize>, rhs: Seq<usize>, j: int, n: int) -> int
+    decreases n
+{
+    if n <= 0 { 0 } else { sub_total(ixs, rhs, j, n - 1) + (if ixs[n - 1] == j { rhs[n - 1] as int } else { 0int }) }
+}
+
+pub proof fn lemma_sub_total_mono(ixs: Seq<usize>, rhs: Seq<usize>, j: int, m: int, n: int)
+    requires 0 <= m <= n <= ixs.len(), n <= rhs.len()
+    ensures 0 <= sub_total(ixs, rhs, j, m) <= sub_total(ixs, rhs, j, n)
+    decreases n
+{
+    if m < n { lemma_sub_total_mono(ixs, rhs, j, m, n - 1); }
+    else if n > 0 { lemma_sub_total_mono(ixs, rhs, j, m - 1, n - 1); }
+}
+
+/// indices of the zero entries of s among the first n, in increasing order
+pub open spec fn zeros_upto(s: Seq<usize>, n: int) -> Seq<usize>
+    decreases n
+{
+    if n <= 0 { Seq::empty() } else if s[n - 1] == 0 { zeros_upto(s, n - 1).push((n - 1) as usize) } else { zeros_upto(s, n - 1) }
+}
+''')
+
+group('impl VecArray<usize>')
+fn(VA, 'argsort', trait='OrdArray', self_ty='VecArray', status='B', props=['C07', 'C20'], rules={'subst': {'T': 'usize'}},
+   ensures=[('C07.argsort', 'sorts(r@, self@)'), ('C07.argsort-stable!vec', 'stable(r@, self@)')],
+   mirror='chk_argsort', note='std sort_by_key is trusted (T); contract checked by the bounded checker')
+fn(TR, 'sort_by', kind='trait', trait='OrdArray', status='P', props=['C07', 'C20'],
+   requires=['key@.len() <= self@.len()'],
+   ensures=[('C07.sort_by-len', 'r@.len() == key@.len()'),
+            ('C07.sort_by', 'exists|p: Seq<usize>| sorts(p, key@) && (forall|i: int| 0 <= i < key@.len() ==> r@[i] == self@[p[i] as int])'),
+            ('C07.sort_by-stable!vec', 'exists|p: Seq<usize>| sorts(p, key@) && stable(p, key@) && (forall|i: int| 0 <= i < key@.len() ==> r@[i] == self@[p[i] as int])')],
+   proofs=[('start', 'assert(lawful_clone::<usize>());')])
+fn(VA, 'max', trait='NaturalArray', self_ty='VecArray', status='B', props=['C07'],
+   ensures=[('C07.max-none', 'r.is_none() <==> self@.len() == 0'),
+            ('C07.max-upper', 'r.is_some() ==> forall|i: int| 0 <= i < self@.len() ==> self@[i] <= r.unwrap()'),
+            ('C07.max-attained', 'r.is_some() ==> exists|i: int| 0 <= i < self@.len() && self@[i] == r.unwrap()')],
+   mirror='chk_max', note='Iterator::max / Option::copied are trusted std (T)')
+fn(VA, 'quot_rem', trait='NaturalArray', self_ty='VecArray', status='P', props=['C07'],
+   requires=['d != 0'],
+   ensures=[('C07.quot_rem-len', 'r.0@.len() == self@.len() && r.1@.len() == self@.len()'),
+            ('C07.quot_rem', 'forall|i: int| 0 <= i < self@.len() ==> r.0@[i] == self@[i] / d && r.1@[i] == self@[i] % d')],
+   loops={1: {'iter': 'it', 'invariant': [
+       'it.seq().len() == self@.len()', 'forall|i: int| 0 <= i < self@.len() ==> *it.seq()[i] == self@[i]',
+       'd != 0', 'q@.len() == it.index@', 'r@.len() == it.index@',
+       'forall|i: int| 0 <= i < it.index@ ==> q@[i] == self@[i] / d && r@[i] == self@[i] % d']}})
+fn(VA, 'mul_constant_add', trait='NaturalArray', self_ty='VecArray', status='P', props=['C07'],
+   requires=['self@.len() == x@.len()', 'forall|i: int| 0 <= i < self@.len() ==> self@[i] * c + x@[i] <= usize::MAX'],
+   ensures=[('C07.mul_constant_add-len', 'r@.len() == self@.len()'),
+            ('C07.mul_constant_add', 'forall|i: int| 0 <= i < self@.len() ==> r@[i] == self@[i] * c + x@[i]')],
+   # the loop variable `x` shadows the parameter `x`: name the parameter's view first
+   loops={1: {'iter': 'it', 'invariant': [
+       'self@.len() == xs.len()', 'forall|i: int| 0 <= i < self@.len() ==> self@[i] * c + xs[i] <= usize::MAX',
+       'it.seq().len() == self@.len()',
+       'forall|i: int| 0 <= i < self@.len() ==> *it.seq()[i].0 == self@[i] && *it.seq()[i].1 == xs[i]',
+       'r@.len() == it.index@', 'forall|i: int| 0 <= i < it.index@ ==> r@[i] == self@[i] * c + xs[i]']}},
+   proofs=[G('before:for (s, x) in', 'let ghost xs = x@;'),
+           ('before:r.push(s * c + x)', 'assert(*s == self@[it.index@] && *x == xs[it.index@]); assert(s * c >= 0) by (nonlinear_arith) requires s >= 0, c >= 0;')])
+fn(VA, 'cumulative_sum', trait='NaturalArray', self_ty='VecArray', status='P', props=['C07'], rules={'deref_assign_rhs': True},
+   requires=['total(self@) <= usize::MAX', 'self@.len() < usize::MAX'],
+   ensures=[('C07.cumulative_sum-len', 'r@.len() == self@.len() + 1'),
+            ('C07.cumulative_sum', 'forall|i: int| 0 <= i <= self@.len() ==> r@[i] == psum(self@, i)')],
+   loops={1: {'iter': 'it', 'invariant': [
+       'it.seq().len() == self@.len()', 'forall|i: int| 0 <= i < self@.len() ==> *it.seq()[i] == self@[i]',
+       'total(self@) <= usize::MAX', 'v@.len() == it.index@', 'a == psum(self@, it.index@)',
+       'forall|i: int| 0 <= i < it.index@ ==> v@[i] == psum(self@, i)']}},
+   proofs=[('before:a += x', 'assert(*x == self@[it.index@]); lemma_psum_mono(self@, it.index@ + 1, self@.len() as int); assert(psum(self@, it.index@ + 1) == psum(self@, it.index@ as int) + self@[it.index@ as int]);')])
+fn(TR, 'sum', kind='trait', trait='NaturalArray', status='P', props=['C07'],
+   requires=['total(self@) <= usize::MAX', 'self@.len() < usize::MAX'],
+   ensures=[('C07.sum', 'r == total(self@)')],
+   proofs=[('start', 'assert(lawful_clone::<usize>());')])
+fn(VA, 'arange', trait='NaturalArray', self_ty='VecArray', status='P', props=['C07'],
+   requires=['*start <= *stop'],
+   ensures=[('C07.arange-len', 'r@.len() == *stop - *start'),
+            ('C07.arange', 'forall|i: int| 0 <= i < r@.len() ==> r@[i] == *start + i')],
+   loops={1: {'iter': 'it', 'invariant': [
+       'n == *stop - *start', 'v@.len() == i', 'forall|k: int| 0 <= k < i ==> v@[k] == *start + k']}})
+fn(VA, 'repeat', trait='NaturalArray', self_ty='VecArray', status='B', props=['C07'],
+   requires=['self@.len() == x@.len()', 'total(self@) <= usize::MAX'],
+   ensures=[('C07.repeat-len', 'r@.len() == total(self@)'),
+            ('C07.repeat', 'forall|i: int, j: int| 0 <= i < self@.len() && 0 <= j < self@[i] ==> r@[#[trigger] seg_at(self@, i, j)] == x@[i]')],
+   mirror='chk_repeat', note='Vec::extend(repeat_n(..)) is outside Verus; bounded check of the real body')
+fn(VA, 'connected_components', trait='NaturalArray', self_ty='VecArray', status='P', props=['C07', 'C06', 'C01', 'C20'],
+   requires=['sources@.len() == targets@.len()', 'in_bounds(sources@, n as int)', 'in_bounds(targets@, n as int)'],
+   ensures=[('C07.connected_components', 'is_coeq(r.0@, r.1 as int, sources@, targets@, n as int)')])
+fn(VA, 'bincount', trait='NaturalArray', self_ty='VecArray', status='P', props=['C07'],
+   requires=['in_bounds(self@, size as int)'],
+   ensures=[('C07.bincount-len', 'r@.len() == size'),
+            ('C07.bincount', 'forall|v: int| 0 <= v < size ==> r@[v] == count(self@, v, self@.len() as int)')],
+   loops={1: {'iter': 'it', 'invariant': [
+       'it.seq().len() == self@.len()', 'forall|i: int| 0 <= i < self@.len() ==> *it.seq()[i] == self@[i]',
+       'in_bounds(self@, size as int)', 'counts@.len() == size', 'self@.len() <= usize::MAX',
+       'forall|v: int| 0 <= v < size ==> counts@[v] == count(self@, v, it.index@)']}},
+   proofs=[('start', 'let ghost _n = self.0@.len(); assert(self@.len() <= usize::MAX) by { vstd::std_specs::vec::axiom_spec_len(&self.0); }'),
+           ('before:counts[idx] += 1', 'assert(idx == self@[it.index@]); lemma_count_bounds(self@, idx as int, it.index@);')])
+fn(VA, 'zero', trait='NaturalArray', self_ty='VecArray', status='P', props=['C07'],
+   ensures=[('C07.zero', 'r@ == zeros_upto(self@, self@.len() as int)')],
+   loops={1: {'iter': 'it', 'invariant': [
+       'it.seq().len() == self@.len()', 'forall|i: int| 0 <= i < self@.len() ==> *it.seq()[i] == self@[i]',
+       'vx_i1 == it.index@', 'self@.len() <= usize::MAX',
+       'zero_indices@ == zeros_upto(self@, it.index@)']}},
+   proofs=[('start', 'assert(self@.len() <= usize::MAX) by { vstd::std_specs::vec::axiom_spec_len(&self.0); }')])
+fn(VA, 'sparse_bincount', trait='NaturalArray', self_ty='VecArray', status='B', props=['C07', 'C20'],
+   ensures=[('C07.sparse_bincount-len', 'r.0@.len() == r.1@.len()'),
+            ('C07.sparse_bincount-distinct', 'injective(r.0@)'),
+            ('C07.sparse_bincount-counts', 'forall|k: int| 0 <= k < r.0@.len() ==> r.1@[k] == count(self@, r.0@[k] as int, self@.len() as int) && r.1@[k] > 0'),
+            ('C07.sparse_bincount-complete', 'forall|i: int| 0 <= i < self@.len() ==> #[trigger] hit(r.0@, self@[i] as int, r.0@.len() as int)'),
+            ('C07.sparse_bincount-sorted!vec', 'forall|a: int, b: int| 0 <= a < b < r.0@.len() ==> r.0@[a] < r.0@[b]')],
+   mirror='chk_sparse_bincount', note='HashMap entry API + sort_unstable are outside Verus; bounded check of the real body')
+fn(VA, 'scatter_sub_assign', trait='NaturalArray', self_ty='VecArray', status='P', props=['C07'],
+   requires=['ixs@.len() <= rhs@.len()', 'in_bounds(ixs@, old(self)@.len() as int)',
+             'forall|j: int| 0 <= j < old(self)@.len() ==> old(self)@[j] >= sub_total(ixs@, rhs@, j, ixs@.len() as int)'],
+   ensures=[('C07.scatter_sub_assign-len', 'final(self)@.len() == old(self)@.len()'),
+            ('C07.scatter_sub_assign', 'forall|j: int| 0 <= j < old(self)@.len() ==> final(self)@[j] == old(self)@[j] - sub_total(ixs@, rhs@, j, ixs@.len() as int)')],
+   loops={1: {'iter': 'it', 'invariant': [
+       'ixs@.len() <= rhs@.len()', 'in_bounds(ixs@, self@.len() as int)', 'self@.len() == old(self)@.len()',
+       'forall|j: int| 0 <= j < old(self)@.len() ==> old(self)@[j] >= sub_total(ixs@, rhs@, j, ixs@.len() as int)',
+       'forall|j: int| 0 <= j < self@.len() ==> self@[j] == old(self)@[j] - sub_total(ixs@, rhs@, j, i as int)']}},
+   proofs=[('before:self[ixs[i]] -= rhs[i]', 'lemma_sub_total_mono(ixs@, rhs@, ixs@[i as int] as int, i as int + 1, ixs@.len() as int);')])
+fn(TR, 'segmented_sum', kind='trait', trait='NaturalArray', status='P', props=['C07'], rules={'ops': ['sub']},
+   requires=['total(self@) <= x@.len()', 'total(x@) <= usize::MAX', 'x@.len() < usize::MAX', 'self@.len() < usize::MAX'],
+   ensures=[('C07.segmented_sum-len', 'r@.len() == self@.len()'),
+            ('C07.segmented_sum', 'forall|i: int| 0 <= i < self@.len() ==> r@[i] == psum(x@, psum(self@, i + 1)) - psum(x@, psum(self@, i))')],
+   proofs=[('start', 'assert(lawful_clone::<usize>());'),
+           ('before:let n = ptr.len()', 'assert forall|i: int| 0 <= i <= self@.len() implies 0 <= #[trigger] psum(self@, i) <= x@.len() by { lemma_psum_mono(self@, i, self@.len() as int); lemma_psum_mono(self@, 0, i); }'),
+           ('end', 'assert forall|i: int| 0 <= i < self@.len() implies psum(x@, #[trigger] psum(self@, i + 1)) >= psum(x@, psum(self@, i)) by { lemma_psum_mono(x@, psum(self@, i), psum(self@, i + 1)); }')])
+fn(TR, 'segmented_arange', kind='trait', trait='NaturalArray', status='P', props=['C07'], rules={'ops': ['sub']},
+   requires=['total(self@) <= usize::MAX', 'self@.len() < usize::MAX'],
+   ensures=[('C07.segmented_arange-len', 'r@.len() == total(self@)'),
+            ('C07.segmented_arange', 'forall|i: int, j: int| 0 <= i < self@.len() && 0 <= j < self@[i] ==> r@[#[trigger] seg_at(self@, i, j)] == j')],
+   proofs=[('start', 'assert(lawful_clone::<usize>());'),
+           ('end', '''assert forall|m: int| 0 <= m < i@.len() implies i@[m] >= r@[m] by {
+                let (a, b) = lemma_seg_find(self@, m);
+                assert(r@[seg_at(self@, a, b)] == p@[a]);
+            }
+            assert forall|a: int, b: int| 0 <= a < self@.len() && 0 <= b < self@[a] implies 0 <= #[trigger] seg_at(self@, a, b) < i@.len() && i@[seg_at(self@, a, b)] - r@[seg_at(self@, a, b)] == b by {
+                lemma_psum_mono(self@, a + 1, self@.len() as int); lemma_psum_mono(self@, 0, a);
+                assert(r@[seg_at(self@, a, b)] == p@[a]);
+            }''')])
+endgroup()
